@@ -5,6 +5,7 @@ from __future__ import annotations
 from dataclasses import dataclass, field
 from typing import Any, List, Optional, Type, Union
 
+import cbor2
 from cbor2 import CBORTag
 
 from pycardano.key import ExtendedVerificationKey, VerificationKey
@@ -20,8 +21,9 @@ from pycardano.serialization import (
     ArrayCBORSerializable,
     MapCBORSerializable,
     NonEmptyOrderedSet,
+    RawCBOR,
+    default_encoder,
     limit_primitive_type,
-    list_hook,
 )
 
 __all__ = ["VerificationKeyWitness", "TransactionWitnessSet"]
@@ -49,11 +51,21 @@ class VerificationKeyWitness(ArrayCBORSerializable):
         )
 
 
+def _restore_datum(value: Any) -> Union[RawPlutusData, RawCBOR]:
+    if isinstance(value, list):
+        # A datum that is a list written with a definite length (80, 82 01 02) arrives as a plain list, which
+        # RawPlutusData does not hold (it would rewrite it with an indefinite length): keep its serialized form.
+        return RawCBOR(cbor2.dumps(value, default=default_encoder))
+    return RawPlutusData.from_primitive(value)
+
+
 def _plutus_data_hook(vals: Any) -> Union[List[Any], NonEmptyOrderedSet[Any]]:
     """Restore witness datums from either wire form: a plain array or a set tagged with 258."""
     if isinstance(vals, CBORTag) and vals.tag == 258:
-        return NonEmptyOrderedSet(list_hook(RawPlutusData)(vals.value), use_tag=True)
-    return list_hook(RawPlutusData)(vals)
+        return NonEmptyOrderedSet(
+            [_restore_datum(v) for v in vals.value], use_tag=True
+        )
+    return [_restore_datum(v) for v in vals]
 
 
 @dataclass(repr=False)
